@@ -228,12 +228,13 @@ def check(ctx: Ctx) -> None:
         ctx.violation("R20.2", "Circuit.to_sympy:delegate", "pyimpspec.circuit.circuit", cs.node, "Circuit.to_sympy must delegate to its top-level series with the running identifiers")
 
     # one variable per parameter / exports never read a stale identifier map (shared with C16)
-    from .c16 import identifier_source_rule, recompute_rule, diagram_label_rule, label_validation_rule
+    from .c16 import identifier_source_rule, recompute_rule, diagram_label_rule, label_validation_rule, identifier_forwarding_rule
     identifier_source_rule(ctx, model, "R20.2")
     recompute_rule(ctx, model, "R20.2")
     ctx.rule("R20.4", "naming: a diagram component is named <symbol>_<label or identifier> of that very element from the circuit's identifier map, unmodified; a stored label is never all digits (it would coincide with another element's identifier: fewer variables than parameters)")
     diagram_label_rule(ctx, model, "R20.4")
     label_validation_rule(ctx, model, "R20.4")
+    identifier_forwarding_rule(ctx, model, "R20.4")
 
     # ---------------- R20.3 ---------------------------------------------------------
     tz = model.fi(TIKZ, "to_circuitikz")
